@@ -217,4 +217,29 @@ def runSim (cfg : Cfg) (simTime prevTime : Int) (vals : Vals) : St × List Row :
   if first = false ∧ simTime > cfg.duration then (s, [])
   else runLoop cfg (runFuel cfg prev) first s []
 
+/-! ### what `add_leak` registers (used by Props/C08Window) -/
+
+/-- `Control._time_control(wn, thr, 'SIM_TIME', False, ControlAction(obj, attr, value))`: a one-shot `AT TIME thr`
+control with one action -/
+def timeCtl (id prio : Nat) (thr : Int) (key : Nat) (value : Int) : Ctl :=
+  ⟨id, prio, .sim ⟨.eq, thr, 0⟩, [⟨key, value⟩], []⟩
+
+/-- `node.add_leak(wn, area, cd, start_time, end_time)`; `key` identifies `(node, 'leak_status')` -/
+structure Leak where
+  key : Nat
+  start : Int
+  stop : Option Int
+  deriving Repr, DecidableEq
+
+/-- the controls `Junction.add_leak` / `Tank.add_leak` register, in this order: a `Control` with
+`SimTimeCondition('=', start_time)` and `ControlAction(node, 'leak_status', True)` and, if `end_time` is given, one with
+`end_time` / `False`; default priority 3 (medium); time conditions make them pre-solve controls -/
+def Leak.ctls (l : Leak) : List Ctl :=
+  timeCtl (2 * l.key) 3 l.start l.key 1 ::
+    (match l.stop with
+     | some e => [timeCtl (2 * l.key + 1) 3 e l.key 0]
+     | none => [])
+
+def leakCtls (ls : List Leak) : List Ctl := ls.flatMap Leak.ctls
+
 end Wntr.Sched
